@@ -22,18 +22,19 @@ Rec == ndJsonDeserialize(IOEnv.TRACE)
 
 VARIABLES
   l, now,
-  ncfg,      \* ncfg[n]: [maxf, inDef, outDef] (0 = none)
+  ncfg,      \* ncfg[n]: [maxf, inDef, outDef]
   calls,     \* calls[q]: the request as issued
   started,   \* started[q]: [t, inT]: the handler invocation
   ended,     \* ended[q]: the response the handler produced
   gone,      \* gone[q]: when the handler future was dropped
   abandoned, \* abandoned[q]: when the caller dropped the call
+  stalled,   \* the driver stalled the runtime (jumped the clock) in this run: cut-offs may be late
   result,    \* set of nonces whose caller got a result
   faulty,    \* are datagram faults being injected
   pendIn,    \* pendIn[route]: inbound deadline chosen by the timeout layer for the request with that route (routes are unique per call but for a few odd ones)
   lastCall   \* nonce of the most recent obs.rpc_call (its outbound tmo.set follows at once)
 
-vars == <<l, now, ncfg, calls, started, ended, gone, abandoned, result, faulty, pendIn, lastCall>>
+vars == <<l, now, ncfg, calls, started, ended, gone, abandoned, result, faulty, pendIn, lastCall, stalled>>
 
 Has(r, f) == f \in DOMAIN r
 Get(r, f, d) == IF Has(r, f) THEN r[f] ELSE d
@@ -41,7 +42,7 @@ With(f, x, v) == [y \in DOMAIN f \cup {x} |-> IF y = x THEN v ELSE f[y]]
 Cur == Rec[l]
 N == Cur.node
 Empty == <<>>
-None == 0
+None == -1      \* "no limit configured" (0 is a limit: nothing fits)
 NoT == 0 - 9           \* "no deadline"
 Min2(a, b) == IF a < b THEN a ELSE b
 Abs(a) == IF a < 0 THEN 0 - a ELSE a
@@ -49,26 +50,26 @@ CancelBound == 250     \* ms, fault-free runs with 1 ms links
 
 Init ==
   /\ l = 1 /\ now = 0 /\ ncfg = Empty /\ calls = Empty /\ started = Empty /\ ended = Empty
-  /\ gone = Empty /\ abandoned = Empty /\ result = {} /\ faulty = FALSE /\ pendIn = Empty /\ lastCall = 0
+  /\ gone = Empty /\ abandoned = Empty /\ result = {} /\ faulty = FALSE /\ pendIn = Empty /\ lastCall = 0 /\ stalled = FALSE
 
 Step(e) == l <= Len(Rec) /\ Cur.ev = e /\ l' = l + 1 /\ now' = Cur.t
 
 TrReset ==
   /\ Step("reset")
   /\ ncfg' = Empty /\ calls' = Empty /\ started' = Empty /\ ended' = Empty /\ gone' = Empty
-  /\ abandoned' = Empty /\ result' = {} /\ faulty' = FALSE /\ pendIn' = Empty /\ lastCall' = 0
+  /\ abandoned' = Empty /\ result' = {} /\ faulty' = FALSE /\ pendIn' = Empty /\ lastCall' = 0 /\ stalled' = FALSE
 
 TrCfg ==
   /\ Step("obs.rpc_cfg")
   /\ ncfg' = With(ncfg, N, [maxf |-> Get(Cur, "max_frame", None),
                              inDef |-> IF Has(Cur, "in_default_ms") THEN Cur.in_default_ms * 1000 ELSE NoT,
                              outDef |-> IF Has(Cur, "out_default_ms") THEN Cur.out_default_ms * 1000 ELSE NoT])
-  /\ UNCHANGED <<calls, started, ended, gone, abandoned, result, faulty, pendIn, lastCall>>
+  /\ UNCHANGED <<calls, started, ended, gone, abandoned, result, faulty, pendIn, lastCall, stalled>>
 
 TrFault ==
   /\ Step("obs.fault")
   /\ faulty' = ~Has(Cur, "what")          \* "what": healed
-  /\ UNCHANGED <<ncfg, calls, started, ended, gone, abandoned, result, pendIn, lastCall>>
+  /\ UNCHANGED <<ncfg, calls, started, ended, gone, abandoned, result, pendIn, lastCall, stalled>>
 
 -----------------------------------------------------------------------------
 (* C15: the frame limits of both ends apply to both directions *)
@@ -105,7 +106,7 @@ TrCall ==
         outT |-> IF Has(Cur, "raw") THEN NoT ELSE -2] @@     \* raw: written by an adversary endpoint, no anemo client stack
        (IF Has(Cur, "timeout_hdr") THEN [thdr |-> Cur.timeout_hdr] ELSE <<>>))
   /\ lastCall' = Cur.nonce
-  /\ UNCHANGED <<ncfg, started, ended, gone, abandoned, result, faulty, pendIn>>
+  /\ UNCHANGED <<ncfg, started, ended, gone, abandoned, result, faulty, pendIn, stalled>>
 
 (* the timeout layers log what they decided: it must be min(default, header) *)
 TrTmoSet ==
@@ -120,7 +121,7 @@ TrTmoSet ==
           /\ UNCHANGED pendIn
      ELSE /\ pendIn' = With(pendIn, Cur.route, IF Has(Cur, "chosen_us") THEN Cur.chosen_us ELSE NoT)
           /\ UNCHANGED calls
-  /\ UNCHANGED <<ncfg, started, ended, gone, abandoned, result, faulty, lastCall>>
+  /\ UNCHANGED <<ncfg, started, ended, gone, abandoned, result, faulty, lastCall, stalled>>
 
 (* the handler is given exactly the request that was sent, once, with the  *)
 (* connection's authenticated identity                                      *)
@@ -140,7 +141,7 @@ TrAppStart ==
      /\ pendIn[Cur.route] = Chosen(Def(c.to, "inDef"), HdrVal(c))
      /\ started' = With(started, Cur.nonce, [t |-> Cur.t, inT |-> pendIn[Cur.route]])
   /\ UNCHANGED pendIn          \* the last decision per route stays: odd routes ("", "/") are shared by calls
-  /\ UNCHANGED <<ncfg, calls, ended, gone, abandoned, result, faulty, lastCall>>
+  /\ UNCHANGED <<ncfg, calls, ended, gone, abandoned, result, faulty, lastCall, stalled>>
 
 TrAppEnd ==
   /\ Step("app.end")
@@ -148,19 +149,19 @@ TrAppEnd ==
   /\ N = calls[Cur.nonce].to
   /\ ended' = With(ended, Cur.nonce, [status |-> Cur.status, len |-> Cur.len, digest |-> Cur.digest,
                                       hdigest |-> Cur.hdigest, hsize |-> Get(Cur, "hsize", 0), t |-> Cur.t])
-  /\ UNCHANGED <<ncfg, calls, started, gone, abandoned, result, faulty, pendIn, lastCall>>
+  /\ UNCHANGED <<ncfg, calls, started, gone, abandoned, result, faulty, pendIn, lastCall, stalled>>
 
 TrAppDrop ==
   /\ Step("app.drop")
   /\ Cur.nonce \in DOMAIN started /\ Cur.nonce \notin DOMAIN ended /\ Cur.nonce \notin DOMAIN gone
   /\ gone' = With(gone, Cur.nonce, Cur.t)
-  /\ UNCHANGED <<ncfg, calls, started, ended, abandoned, result, faulty, pendIn, lastCall>>
+  /\ UNCHANGED <<ncfg, calls, started, ended, abandoned, result, faulty, pendIn, lastCall, stalled>>
 
 TrAbandon ==
   /\ Step("obs.rpc_abandon")
   /\ Cur.nonce \in DOMAIN calls /\ Cur.nonce \notin result
   /\ abandoned' = With(abandoned, Cur.nonce, Cur.t)
-  /\ UNCHANGED <<ncfg, calls, started, ended, gone, result, faulty, pendIn, lastCall>>
+  /\ UNCHANGED <<ncfg, calls, started, ended, gone, result, faulty, pendIn, lastCall, stalled>>
 
 -----------------------------------------------------------------------------
 Slack == 60000         \* us of scheduling / round-trip slack in fault-free timing rules
@@ -194,7 +195,13 @@ TrResult ==
                      /\ RespFits(c, ended[q])
                      /\ c.outT \notin {NoT, -2} /\ ~faulty => NowUs <= c.t0 * 1000 + c.outT + Slack
                 ELSE /\ Cur.status = 408 /\ Cur.len = 0                              \* RequestTimeout
-                     /\ TimedOutIn(q)
+                     /\ \/ TimedOutIn(q)
+                        \* the runtime stalled across the deadline: the cut-off is late, not early
+                        \/ /\ stalled /\ q \in DOMAIN started /\ started[q].inT # NoT /\ q \in DOMAIN gone
+                           /\ gone[q] * 1000 >= started[q].t * 1000 + started[q].inT - Slack
+                     (* C11: a handler needing less than the deadline is answered normally, however late *)
+                     (* the serving task gets to run                                                    *)
+                     /\ (~faulty /\ q \in DOMAIN started /\ started[q].inT # NoT) => c.delay + Slack >= started[q].inT
         ELSE \/ ~ReqFits(c)                                            \* refused for its size
              \/ q \in DOMAIN ended /\ ~RespFits(c, ended[q])
              \/ /\ c.outT \notin {NoT, -2}                                       \* the caller's own deadline
@@ -205,14 +212,20 @@ TrResult ==
            => c.delay <= started[q].inT + Slack
      /\ (Cur.ok /\ Cur.status # 408 /\ c.outT \notin {NoT, -2} /\ ~faulty) => c.delay <= c.outT + Slack
   /\ result' = result \cup {Cur.nonce}
-  /\ UNCHANGED <<ncfg, calls, started, ended, gone, abandoned, faulty, pendIn, lastCall>>
+  /\ UNCHANGED <<ncfg, calls, started, ended, gone, abandoned, faulty, pendIn, lastCall, stalled>>
+
+(* the driver jumps the clock with calls in flight (a stalled or overloaded runtime) *)
+TrStall ==
+  /\ Step("obs.stall")
+  /\ stalled' = TRUE
+  /\ UNCHANGED <<ncfg, calls, started, ended, gone, abandoned, result, faulty, pendIn, lastCall>>
 
 (* a line the driver replaced because it is a listed known finding: the call *)
 (* counts as answered, nothing else is assumed                               *)
 TrKnownFinding ==
   /\ Step("obs.known_finding")
   /\ result' = result \cup {Cur.nonce}
-  /\ UNCHANGED <<ncfg, calls, started, ended, gone, abandoned, faulty, pendIn, lastCall>>
+  /\ UNCHANGED <<ncfg, calls, started, ended, gone, abandoned, faulty, pendIn, lastCall, stalled>>
 
 (* when everything has been quiet for a while: every call got its outcome,  *)
 (* every started handler finished or was dropped                            *)
@@ -220,16 +233,16 @@ TrQuiet ==
   /\ Step("obs.rpc_quiet")
   /\ \A q \in DOMAIN calls : q \in result \/ q \in DOMAIN abandoned
   /\ \A q \in DOMAIN started : q \in DOMAIN ended \/ q \in DOMAIN gone
-  /\ UNCHANGED <<ncfg, calls, started, ended, gone, abandoned, result, faulty, pendIn, lastCall>>
+  /\ UNCHANGED <<ncfg, calls, started, ended, gone, abandoned, result, faulty, pendIn, lastCall, stalled>>
 
 Other ==
   /\ l <= Len(Rec)
   /\ Cur.ev \notin {"reset", "obs.rpc_cfg", "obs.fault", "obs.rpc_call", "tmo.set", "app.start", "app.end",
-                    "app.drop", "obs.rpc_abandon", "obs.rpc_result", "obs.rpc_quiet", "obs.known_finding"}
+                    "app.drop", "obs.rpc_abandon", "obs.rpc_result", "obs.rpc_quiet", "obs.known_finding", "obs.stall"}
   /\ l' = l + 1 /\ now' = Cur.t
-  /\ UNCHANGED <<ncfg, calls, started, ended, gone, abandoned, result, faulty, pendIn, lastCall>>
+  /\ UNCHANGED <<ncfg, calls, started, ended, gone, abandoned, result, faulty, pendIn, lastCall, stalled>>
 
-Next == TrReset \/ TrCfg \/ TrFault \/ TrCall \/ TrTmoSet \/ TrAppStart \/ TrAppEnd \/ TrAppDrop
+Next == TrStall \/ TrReset \/ TrCfg \/ TrFault \/ TrCall \/ TrTmoSet \/ TrAppStart \/ TrAppEnd \/ TrAppDrop
         \/ TrAbandon \/ TrResult \/ TrKnownFinding \/ TrQuiet \/ Other
 Spec == Init /\ [][Next]_vars
 
